@@ -24,6 +24,9 @@ def run(prog, R, tier="quick", only_rule=None):
     c13b(prog, R)
     from rules.props import c01
     c01.c01c(prog, R, rid="C13.c")
+    c13d(prog, R)
+    # point reads must find the weak tombstone: every distinct key of a table is in its filter, whatever its value type
+    c01.c01e(prog, R, rid="C13.e")
 
 
 def c13a(prog, R):
@@ -108,3 +111,36 @@ def c13b(prog, R):
     r.check(sm.before_has_call(s, "on_dropped", "&dropped"), "%s|the consumed value is reported to the GC callback" % sm.path,
             "the value dropped by the annihilation is not reported to the drop callback", "")
     r.floor(5)
+
+
+def c13d(prog, R, rid="C13.d"):
+    """A weak tombstone leaves the data in exactly two ways: together with the value it deletes (annihilation, C13.b), or at the
+    last level (tombstone eviction, C13.c).  Version GC - draining the versions beneath a newer one that every snapshot above
+    the watermark sees - is not a third way: the newer version can itself be cancelled by a later weak delete, and then nothing
+    would shadow the value the older weak tombstone was covering in a lower level (finding F13)."""
+    r = R.rule(rid, "version GC never drains a weak tombstone unless tombstones are being evicted", "K,B")
+    name = "compaction::stream::CompactionStream::<'a, I, F>::drain_key"
+    h = prog.hir.get(name)
+    if h is None:
+        cands = [k for k in prog.hir if k.startswith("compaction::stream::CompactionStream") and k.endswith("::drain_key")]
+        h = prog.hir.get(cands[0]) if cands else None
+    if h is None:
+        r.anchor_missing("CompactionStream::drain_key")
+        return
+    lets = {n["pat"]["n"]: hir_expr_str(n["init"], 400) for n in hir_walk(h["body"]) if n.get("k") == "let" and n["pat"].get("k") == "bind" and "init" in n}
+    # the predicate of the draining next_if: which entries count as expired
+    preds = [v for k_, v in lets.items() if "user_key == key" in v]
+    ok = False
+    detail = "; ".join(preds)
+    for ptxt in preds:
+        txt = ptxt
+        for k_, v in lets.items():
+            txt = txt.replace(k_, "(" + v + ")") if k_ in txt and k_ not in ("kv",) and v != ptxt else txt
+        spares_weak = "WeakTombstone" in txt and "!(" in txt
+        only_when_kept = "evict_tombstones" in txt
+        ok = ok or (spares_weak and only_when_kept)
+    r.check(ok, "CompactionStream::drain_key|stops in front of a weak tombstone unless evict_tombstones",
+            "version GC drains every older version of the key including weak tombstones (%s): after `insert, weak delete, insert` "
+            "compacted above a value that sits in a lower level, a second weak delete cancels the newer insert and the original value "
+            "comes back" % (detail or "no key comparison found"), "", detail)
+    r.floor(1)
